@@ -45,6 +45,7 @@ def units(tier):
     for (w, s) in [(2, 1), (2, 2), (3, 2), (1, 2)]:
         out.append({'fam': 'inroll', 'w': w, 's': s, 'L': Ln})
     out.append({'fam': 'insplit', 'L': Ln})
+    out.append({'fam': 'many'})
     d = 8 if tier == 'quick' else 10
     n = 8 if tier == 'quick' else 32
     for keys in ([0, 1], [1, 3]):
@@ -60,6 +61,10 @@ def cases(unit):
         for i, seq in enumerate(spaces.sequences([0, 1, 2], unit['L'])):
             if i % n == sh:
                 yield {'fam': 'top', 'pred': unit['pred'], 'seq': seq}
+    elif fam == 'many':
+        for p in PREDS:
+            for nk in (20, 150):
+                yield {'fam': 'many', 'pred': p, 'nkeys': nk}
     elif fam == 'grouped':
         for sizes in unit['sizes']:
             for order in spaces.interleavings(sizes):
@@ -99,6 +104,13 @@ def run_case(case, acc):
             items.append(1000 * g + 10 * pos.get(g, 0) + c)
             pos[g] = pos.get(g, 0) + 1
         opspecs.FUNCS.setdefault('div1000', lambda x: x // 1000)
+        spec = [['group_by', 'div1000', [['split', case['pred'], INNER]]]]
+        exp = None
+    elif fam == 'many':
+        nk = case['nkeys']
+        opspecs.FUNCS['div1000'] = lambda x: x // 1000
+        # nk groups alive together; every group gets the class sequence 0,0,1,2,2,0 in interleaved passes
+        items = [1000 * g + 10 * p + c for p, c in enumerate([0, 0, 1, 2, 2, 0]) for g in range(nk)]
         spec = [['group_by', 'div1000', [['split', case['pred'], INNER]]]]
         exp = None
     elif fam == 'inroll':
